@@ -193,6 +193,89 @@ def label_correspondence():
     return len(exp), bad
 
 
+def record_correspondence(tier):
+    """the record loop of the writer against the model (XmlRec.v): for every record of a set of documents the element
+    lxml holds after serialisation — name, prov:id, the children with their xsi:type / xml:lang / prov:ref and text, in
+    order — is compared with the element the model builds from the record's kind, identifier and attribute list.
+    Same-name siblings are compared as a multiset (the library orders them by printed value)."""
+    from harness import common, xmltree, progs
+    from harness.sexp import dumps, loads
+    from harness.props import c13
+    import prov.model as M
+    from lxml import etree
+    PROVU = "http://www.w3.org/ns/prov#"
+    programs = progs.value_grid_programs(()) + progs.subtype_programs(()) + progs.scoping_programs(()) + c13.fixed_programs()
+    EXU = "http://example.org/"
+    multi = [["NewDoc"], ["AddNs", ["d", "0"], "ex", EXU],
+             ["NewRecord", ["d", "0"], "Entity", ["S", "ex:e"],
+              [[["S", "prov:type"], ["qn", "ex", EXU, "T1"]], [["S", "ex:z"], ["int", "1"]], [["S", "prov:type"], ["qn", "ex", EXU, "T2"]],
+               [["S", "prov:label"], ["str", "l1"]], [["S", "prov:type"], ["str", "T3"]], [["S", "prov:label"], ["lit", "l2", "none", ["some", "en"]]],
+               [["S", "ex:a"], ["str", "x"]], [["S", "ex:a"], ["int", "2"]], [["S", "prov:location"], ["str", "here"]],
+               [["S", "prov:location"], ["id", EXU + "there"]], [["S", "prov:value"], ["float", "0.5"]]]],
+             ["NewRecord", ["d", "0"], "Activity", ["S", "ex:act"],
+              [[["S", "prov:startTime"], ["time", "2012", "3", "31", "9", "21", "0", "0", "none"]],
+               [["S", "prov:type"], ["str", "a"]], [["S", "prov:type"], ["str", "b"]], [["S", "prov:type"], ["str", "c"]],
+               [["S", "ex:k"], ["bool", "true"]], [["S", "prov:label"], ["str", "act"]]]],
+             ["NewRecord", ["d", "0"], "Usage", ["S", "ex:u"],
+              [[["S", "prov:activity"], ["str", "ex:act"]], [["S", "prov:role"], ["str", "r1"]], [["S", "prov:role"], ["str", "r2"]],
+               [["S", "prov:entity"], ["str", "ex:e"]], [["S", "ex:k"], ["int", "1"]], [["S", "prov:type"], ["str", "t"]],
+               [["S", "prov:time"], ["time", "2012", "3", "31", "9", "21", "0", "0", "60"]]]]]
+    programs = [multi] + programs
+    docs = []
+    for ops in programs:
+        im = I.Impl()
+        for op in ops:
+            im.step(op)
+        docs.extend(im.docs)
+
+    def canon(t):
+        # (ns, local, attrs, text, children grouped by name with each group sorted)
+        kids = [canon(k) for k in t[6]]
+        groups = []
+        for k in kids:
+            if groups and groups[-1][0] == (k[0], k[1]):
+                groups[-1][1].append(k)
+            else:
+                groups.append([(k[0], k[1]), [k]])
+        return [t[1], t[2], sorted(map(tuple, t[3])), t[5], [[list(g[0]), sorted(g[1], key=repr)] for g in groups]]
+
+    reqs, exp = [], []
+    for d in docs:
+        if not expressible(d) or c01.has_mixed_kinds(d):
+            continue
+        for ft in (False, True):
+            try:
+                text = d.serialize(format="xml", force_types=ft)
+            except Exception:
+                continue
+            root = xmltree.tree_of(text)
+            conts = [(d, [k for k in root[6] if k[2] != "bundleContent"])] + \
+                    [(b, k[6]) for b, k in zip(d.bundles, [k for k in root[6] if k[2] == "bundleContent"])]
+            for c, elems in conts:
+                recs = c.get_records()
+                if len(recs) != len(elems):
+                    exp.append((ft, "record count", None, None)); reqs.append(dumps(["xmlreadlabel", "entity"]))
+                    continue
+                for r, el in zip(recs, elems):
+                    pairs = [[I.sx_qn(k), I.sx_value(v)] for k, v in r.attributes]
+                    ident = I.sx_qn(r.identifier) if r.identifier is not None else "none"
+                    reqs.append(dumps(["xmlrecord", "true" if ft else "false", I.KIND_OF[type(r)], ident, pairs]))
+                    exp.append((ft, str(r), canon(el), r))
+    outs = common.run_model_batch(reqs)
+    bad = []
+    for (ft, what, want, r), o in zip(exp, outs):
+        if want is None:
+            bad.append({"what": "the document element does not hold one child per record"})
+            continue
+        m = loads(o)
+        if not (isinstance(m, list) and m and m[0] == "e"):
+            bad.append({"force_types": ft, "record": what[:300], "model": dumps(m)[:200]})
+            continue
+        if canon(m) != want:
+            bad.append({"force_types": ft, "record": what[:400], "implementation": repr(want)[:700], "model": repr(canon(m))[:700]})
+    return len(exp), bad
+
+
 def classify(f, ops):
     c = c01.classify(f, ops)
     return {"C01-F1": "C02-F1", "C01-F2": "C02-F2", "C01-F3": None}.get(c)
@@ -215,6 +298,12 @@ def run(tier, seed, log, model_runs=True, enlarged=False):
         for b in bad[:2]:
             res["disagreements"].append({"first_difference": repr(b)[:900],
                                          "theorem": "correspondence Xml.xml_emit ~ provxml.serialize_bundle (value level)"})
+        n, bad = record_correspondence(tier)
+        res["coverage"]["record_element_cases"] = n
+        log("record elements: %d cases, %d disagreements" % (n, len(bad)))
+        for b in bad[:2]:
+            res["disagreements"].append({"first_difference": repr(b)[:1500],
+                                         "theorem": "correspondence XmlRec.xml_record ~ provxml.serialize_bundle (record loop)"})
         n, bad = label_correspondence()
         res["coverage"]["element_name_cases"] = n
         log("element names: %d cases, %d disagreements" % (n, len(bad)))
